@@ -1244,8 +1244,15 @@ impl SpanPrinter {
         dur: &SignedDuration,
         mut wtr: W,
     ) -> Result<(), Error> {
+        // A duration never has calendar units, and the parser doesn't accept
+        // them for a duration either. Not even when they're zero. So the unit
+        // used for a zero duration is never bigger than hours.
+        let printer = SpanPrinter {
+            zero_unit: self.zero_unit.min(Unit::Hour),
+            ..self.clone()
+        };
         let mut wtr =
-            DesignatorWriter::new(self, &mut wtr, false, dur.signum());
+            DesignatorWriter::new(&printer, &mut wtr, false, dur.signum());
         wtr.maybe_write_prefix_sign()?;
         match self.fractional {
             None => {
